@@ -227,7 +227,8 @@ Section Tree.
     cbn [RoundtripGen.gobj RoundtripGen.eobj]. rewrite Hm.
     set (q := match qn with Some ((_ :: _) as q) => q | _ => m_qname m end).
     set (gats := flat_map (fun var => g_attr c u ign var (field_of fs var)) (get_attribute_vars m)).
-    set (gks := flat_map (fun var => g_field c u (gobj n) var (field_of fs var)) (get_element_vars m)).
+    pose proof (class_pairs cl fs m Hwc Hnames) as Hps.
+    set (gks := flat_map (fun vv => g_field c u (gobj n) (fst vv) (snd vv)) (pairs cl fs m)).
     (* attributes *)
     assert (Hrel : Forall2 attr_rel (map (fun a => (of_qname (fst a), of_wval c (snd a))) gats)
                      (flat_map (fun var => e_attr c u ign var (field_of fs var)) (get_attribute_vars m))).
@@ -260,35 +261,42 @@ Section Tree.
       destruct (wf_class_avar m var Hwc Hvar) as [Hwa _]. destruct (wf_attr_inv var Hwa) as [_ [_ [_ [_ [Hr _]]]]].
       unfold reserved_name in Hr. rewrite Es, str_eqb_refl in Hr. discriminate. }
     (* content *)
-    assert (Hkids : flat_map den gks = flat_map (fun var => e_field c u (eobj n) var (field_of fs var)) (get_element_vars m)
+    assert (Hkids : flat_map den gks = flat_map (fun vv => e_field c u (eobj n) (fst vv) (snd vv)) (pairs cl fs m)
                     /\ forallb (fun k => attrs_present (item_of c k)) gks = true).
     { unfold gks. rewrite flat_map_flat_map.
-      assert (Hper : forall var, In var (get_element_vars m) ->
-                flat_map den (g_field c u (gobj n) var (field_of fs var)) = e_field c u (eobj n) var (field_of fs var)
-                /\ forallb (fun k => attrs_present (item_of c k)) (g_field c u (gobj n) var (field_of fs var)) = true).
-      { intros var Hvar.
-        cut (flat_map den (g_items c u (gobj n) var (field_of fs var)) = e_items c u (eobj n) var (field_of fs var)
-             /\ forallb (fun k => attrs_present (item_of c k)) (g_items c u (gobj n) var (field_of fs var)) = true).
-        { intros [E1 E2]. unfold g_field, e_field. destruct (field_of fs var) eqn:Ex; try (split; reflexivity);
+      assert (Hper : forall var x, In (var, x) (pairs cl fs m) ->
+                flat_map den (g_field c u (gobj n) var x) = e_field c u (eobj n) var x
+                /\ forallb (fun k => attrs_present (item_of c k)) (g_field c u (gobj n) var x) = true).
+      { intros var x Hin.
+        destruct (ps_src _ _ _ _ Hps _ Hin) as [Hvar [Hxn Hsrc]]. cbn [fst snd] in Hvar, Hxn, Hsrc.
+        cut (flat_map den (g_items c u (gobj n) var x) = e_items c u (eobj n) var x
+             /\ forallb (fun k => attrs_present (item_of c k)) (g_items c u (gobj n) var x) = true).
+        { intros [E1 E2]. unfold g_field, e_field. destruct x eqn:Ex; try (split; reflexivity);
             rewrite <- Ex in *; apply (den_wrap var _ _ E1 E2). }
-        set (x := field_of fs var).
         assert (Hpr : forall y, enc_shape (v_format var) y ->
                   flat_map den [g_prim c u var y] = [e_prim c u var y]
                   /\ forallb (fun k => attrs_present (item_of c k)) [g_prim c u var y] = true).
         { intros y Hy. cbn [flat_map]. rewrite (den_prim var y Hy). split; reflexivity. }
         destruct (wf_class_evar m var Hwc Hvar) as [[Hwe Hine]|[Htx [Hwt Hnoe]]].
         - destruct (wf_elem_inv var Hwe) as [Hk [Hc Hty]].
-          pose proof (Hfe _ var Hine (or_introl eq_refl)) as Hfv. fold x in Hfv.
+          pose proof (Hfe _ var Hine (or_introl eq_refl)) as Hfv0.
           assert (Hkt : v_is KText var = false) by (destruct Hk as [_ [Hkt _]]; exact Hkt).
           unfold g_items, e_items. rewrite Hkt.
           destruct Hty as [[k [Htys [Hcl Htf]]]|[t [Htys [Hst Hcl]]]].
-          + rewrite Htf. unfold Fits.fits_elem in Hfv. rewrite Htf in Hfv.
+          + rewrite Htf.
             assert (Hobj : forall y, fits_item c u ok (fits n) var y = true ->
                       den (g_item c u (gobj n) var y) = [e_item c u (eobj n) var y]
                       /\ attrs_present (item_of c (g_item c u (gobj n) var y)) = true).
             { intros y Hfy. destruct (fits_item_class c u ok _ var k y Htys Hfy) as [cl' [fs' [-> Hr]]].
               cbn [g_item e_item]. apply (IH k); [|exact Hr].
               apply (Hnest _ var k Hine (or_introl eq_refl) Hcl). }
+            destruct Hsrc as [Hw|[f0 [t0 [l0 [Hf0 [_ [_ [El Hil]]]]]]]]; cbn [fst snd] in *.
+            2:{ rewrite El in Hfv0. unfold Fits.fits_elem in Hfv0. rewrite Hf0, Htf in Hfv0.
+                apply andb_true_iff in Hfv0 as [_ Hfl]. rewrite forallb_forall in Hfl. specialize (Hfl x Hil).
+                destruct (fits_item_class c u ok _ var k x Htys Hfl) as [cl' [fs' [Ex _]]].
+                destruct (Hobj x Hfl) as [E1 E2]. subst x. cbn [flat_map forallb]. rewrite E1, E2. split; reflexivity. }
+            unfold pair_whole in Hw. cbn [fst snd] in Hw. rewrite <- Hw in Hfv0. rename Hfv0 into Hfv. clear Hin Hxn Hw.
+            unfold Fits.fits_elem in Hfv. rewrite Htf in Hfv.
             destruct (v_factory var).
             * destruct x as [| |tt l| | | |]; try discriminate Hfv. apply andb_true_iff in Hfv as [_ Hfl].
               rewrite forallb_forall in Hfl. clear Hpr.
@@ -299,12 +307,18 @@ Section Tree.
             * destruct x as [| | |cl' fs'| | |] eqn:Ex;
                 try (unfold Fits.fits_item, vtype in Hfv; rewrite Htys in Hfv; discriminate Hfv); [split; reflexivity|].
               cbn [flat_map forallb]. destruct (Hobj _ Hfv) as [E1 E2]. rewrite E1, E2. split; reflexivity.
-          + unfold Fits.fits_elem in Hfv.
-            assert (Hit : forall y, fits_item c u ok (fits n) var y = true ->
+          + assert (Hit : forall y, fits_item c u ok (fits n) var y = true ->
                       g_item c u (gobj n) var y = g_prim c u var y /\ e_item c u (eobj n) var y = e_prim c u var y
                       /\ enc_shape (v_format var) y).
             { intros y Hfy. destruct (fits_item_simple c u ok _ var t y Htys Hst Hfy) as [p [-> Hp]].
               repeat split. eapply es_leaf; exact Hp. }
+            destruct Hsrc as [Hw|[f0 [t0 [l0 [Hf0 [Htf0 [_ [El Hil]]]]]]]]; cbn [fst snd] in *.
+            2:{ rewrite El in Hfv0. unfold Fits.fits_elem in Hfv0. rewrite Hf0, Htf0 in Hfv0.
+                apply andb_true_iff in Hfv0 as [_ Hfl]. rewrite forallb_forall in Hfl. specialize (Hfl x Hil).
+                destruct (fits_item_simple c u ok _ var t x Htys Hst Hfl) as [p [Ex Hp]]. subst x. rewrite Htf0.
+                apply (Hpr (VP p)). eapply es_leaf; exact Hp. }
+            unfold pair_whole in Hw. cbn [fst snd] in Hw. rewrite <- Hw in Hfv0. rename Hfv0 into Hfv. clear Hin Hxn Hw.
+            unfold Fits.fits_elem in Hfv.
             destruct (v_tokens_factory var) as [tf|] eqn:Etf.
             * destruct (v_factory var) as [fa|] eqn:Efa.
               -- destruct x as [| |tt l| | | |]; try discriminate Hfv. apply andb_true_iff in Hfv as [_ Hfl].
@@ -338,7 +352,10 @@ Section Tree.
                  inversion Ep; subst. apply (Hpr (VP p0)). eapply es_leaf; exact Hp.
         - destruct (wf_text_inv var Hwt) as [Hwtk [Hwt0 [t [Htys Hwtd]]]].
           unfold g_items, e_items. rewrite Hwtk.
-          rewrite Htx in Hft. fold x in Hft. unfold Fits.fits_text, vtype in Hft. rewrite Htys in Hft.
+          assert (Hxe : x = field_of fs var).
+          { destruct Hsrc as [Hw|[f1 [t1 [l1 [Hf1 _]]]]]; [exact Hw|]. cbn [fst] in Hf1.
+            rewrite (wf_text_nofactory var Hwt) in Hf1. discriminate Hf1. }
+          rewrite Htx in Hft. rewrite <- Hxe in Hft. unfold Fits.fits_text, vtype in Hft. rewrite Htys in Hft.
           assert (Hsh : x <> VNone -> enc_shape (v_format var) x).
           { intros Hx. destruct (v_tokens_factory var).
             - destruct x as [| |tt l| | | |]; try discriminate Hft. apply andb_true_iff in Hft as [_ Htk].
@@ -348,9 +365,9 @@ Section Tree.
           destruct x eqn:Ex; try (split; reflexivity);
             (cbn [flat_map forallb]; rewrite app_nil_r; rewrite den_data; [split; reflexivity|apply Hsh; discriminate]). }
       split.
-      - apply flat_map_ext_in. intros var Hvar. apply (Hper var Hvar).
-      - rewrite forallb_forall. intros k Hk. apply in_flat_map in Hk as [var [Hvar Hk]].
-        destruct (Hper var Hvar) as [_ Hall]. rewrite forallb_forall in Hall. apply Hall. exact Hk. }
+      - apply flat_map_ext_in. intros [var x] Hvar. apply (Hper var x Hvar).
+      - rewrite forallb_forall. intros k Hk. apply in_flat_map in Hk as [[var x] [Hvar Hk]].
+        destruct (Hper var x Hvar) as [_ Hall]. rewrite forallb_forall in Hall. apply Hall. exact Hk. }
     destruct Hkids as [Hk1 Hk2].
     split.
     - unfold den. cbn [item_of denote].
